@@ -67,3 +67,31 @@ contract(P + "DecayModelParamValueReplacement.model_options", types={"tree": "ob
          ], "modifies": ["option_tokens(tree)"], "modifies_fields": ["value"]}},
          modifies=["option_tokens(tree)"], modifies_fields=["value"],
          returns="none", properties=["C05", "C01"])
+
+# ---- ModelAlias expansion (C05, C06) ---------------------------------------------------------------------------
+ADEFS = "self.define_defs"
+ALIAS_TABLE = f"forallv(lambda k: implies(dhas({ADEFS}, k), typ(dget({ADEFS}, k), 'list')))"
+contract(P + "DecayModelAliasReplacement._replacement", types={"t": "obj:Token"},
+         requires=[f"typ({ADEFS}, 'dict')", ALIAS_TABLE],
+         ensures=[
+             # the definition the label stands for — as a copy of its own for this use (nothing shared between uses)
+             f"deepcopy_of(result, old(dget({ADEFS}, t.value)))", "isfresh(result)",
+         ],
+         # a model word that is neither a known model (it would be a MODEL_NAME token) nor a defined alias is an error
+         raises={"ValueError": f"not dhas({ADEFS}, t.value)"},
+         properties=["C05", "C06"])
+
+contract(P + "DecayModelAliasReplacement.model", types={"treelist": "list"},
+         requires=[f"typ({ADEFS}, 'dict')", ALIAS_TABLE, "llen(treelist) >= 1",
+                   "typ(lget(treelist, 0), 'obj:Tree', 'obj:Token')",
+                   "implies(typ(lget(treelist, 0), 'obj:Tree'), lget(treelist, 0).data == 'model_label' and "
+                   "        typ(lget(treelist, 0).children, 'list') and llen(lget(treelist, 0).children) >= 1 and "
+                   "        typ(lget(lget(treelist, 0).children, 0), 'obj:Token'))"],
+         ensures=[
+             "isfresh(result)", "result.data == 'model'",
+             # a plain model keeps its children; an alias is replaced by (a private copy of) what it stands for
+             "implies(typ(lget(treelist, 0), 'obj:Token'), same(result.children, treelist))",
+             f"implies(typ(lget(treelist, 0), 'obj:Tree'), deepcopy_of(result.children, old(dget({ADEFS}, lget(lget(treelist, 0).children, 0).value))) and isfresh(result.children))",
+         ],
+         raises={"ValueError": f"typ(lget(treelist, 0), 'obj:Tree') and not dhas({ADEFS}, lget(lget(treelist, 0).children, 0).value)"},
+         returns="obj:Tree", properties=["C05", "C06"])
